@@ -60,9 +60,10 @@ func (k *Keystore) HasKey(ctx context.Context, id string) (bool, error) {
 			return false, errmsg.ErrKeyNotInKeystore.Wrap(err)
 		}
 
-		if storedKey != nil {
-			k.cache.Add(id, base64.StdEncoding.EncodeToString(value))
-		}
+		// the key is in the datastore: cache it and report it as present
+		k.cache.Add(id, base64.StdEncoding.EncodeToString(value))
+
+		return true, nil
 	}
 
 	return storedKey != nil, nil
